@@ -5,7 +5,7 @@ from .sessioncheck import SessionCheck, CLAUSES
 
 class C01(SessionCheck):
     pid = "C01"
-    inst_kwargs = dict(allow_empty_jobs=True)
+    inst_kwargs = dict(allow_empty_jobs=True, huge=True)
     gen_kwargs = dict(p_invalid=0.15, p_query=0.05, p_reset=0.03, p_snapshot=1.0)
     assumptions = ["requests name operations of the dispatcher's own instance",
                    "valid instance: durations >= 0 (the property's own scope)"]
